@@ -692,6 +692,23 @@ def f10_history(r):
     return ops
 
 
+def respell_alias(r):
+    """set on an EXISTING key under another spelling with a source that contains the entry (the new spelling is recorded
+    before the value is copied, so the copy shows it), lies inside it, is the entry's own value, or NULL; then the entry is
+    removed into a slot (group gM: the order of the two halves of cif_map_set_item on an existing key)"""
+    a, b = r.choice([("\u00e9", "e\u0301"), ("\u00c5", "A\u030a"), ("x\u00e9", "xe\u0301")])   # table keys: NFC only
+    r.random()
+    s0 = ("s", 0, [])      # `a` is the NFC form: the value description given to bld carries the key as stored
+    tbl = ("T", [(G.units_of(a), ("T", [(G.units_of("q"), small_tree(r))]))])
+    wrap = r.random() < 0.5
+    ops = [("bld", s0, ("L", [tbl]) if wrap else tbl)]
+    t = ("s", 0, [("i", 0)]) if wrap else s0
+    ent = (t[0], t[1], t[2] + [("k", norm_table_key(a))])
+    src = r.choice([s0, t, ent, (ent[0], ent[1], ent[2] + [("k", "q")]), None])
+    ops += [("tset", t, b, src), ("tkeys", t), ("tget", t, a), ("trem", t, a, ("s", 1, [])), ("cnt", ("s", 1, []))]
+    return ops
+
+
 def capacity_walk(r):
     """a list grown through the capacity steps 0→4→8→12→18→27 with inserts at the front / middle / end and removals"""
     ops = [("new", ("s", 0, []), 2), ("bld", ("s", 1, []), small_leaf(r))]
@@ -751,6 +768,8 @@ def generate(seed, tier):
         x = r.random()
         flavour = "plain" if x < 0.86 else ("alias-inside" if x < 0.91 else ("alias-ancestor" if x < 0.95 else ("self-clone" if x < 0.975 else "pkt-dup")))
         yield request(gen_sequence(r, nops, flavour))
+    for _ in range(20 if quick else 200):
+        yield request(respell_alias(r))
 
 
 # ---- oracle --------------------------------------------------------------------------------------------------------
